@@ -233,15 +233,24 @@ Definition any_cmd (o : list (name * ostream)) : bool :=
    that a child's copying goroutine was alive at that moment (two users of one
    io.Writer); if that child may actually be writing, the outcome is a matter
    of timing (st_unmod). *)
-Definition touch (E : env) (s : state) : state :=
+Definition buf_may_fill (E : env) (s : state) (n : nat) : bool :=
+  match e_mode E with Buf cap => (cap <=? length (bw_buf (st_out s)) + n)%nat | _ => false end.
+
+(* [n] = number of bytes the access is about to add.  While a print | cmd
+   child is alive its copying goroutine may, at any moment between the child's
+   start and Wait (whenever the child's stdout reaches EOF -- at once for
+   "exec cat >> f"), find the buffer exactly full and Flush it itself; an own
+   access during which the buffer is or becomes full therefore races with it:
+   st_unmod. *)
+Definition touch (E : env) (s : state) (n : nat) : state :=
   let s := if negb (is_osfile (e_mode E)) && any_cmd (st_outs s) then set_overlap s else s in
-  if any_active (st_outs s) then set_unmod s else s.
+  if any_active (st_outs s) || (any_cmd (st_outs s) && buf_may_fill E s n) then set_unmod s else s.
 
 (* p.output.(flusher).Flush(), when p.output has a Flush method *)
 Definition flush_stdout (E : env) (s : state) : state * bool :=
   match e_mode E with
   | Buf _ =>
-      let s := touch E s in
+      let s := touch E s 0 in
       match bw_flush (st_out s) (st_sink s) with (w, k, ok) => (set_out s w k, ok) end
   | _ => (s, true)
   end.
@@ -272,7 +281,7 @@ Fixpoint write_pieces_direct (k : sink) (ps : list bytes) : sink * bool :=
   end.
 
 Definition write_stdout (E : env) (s : state) (ps : list bytes) : state * bool :=
-  let s := add_log (touch E s) (EvWrite WStdout (concat ps)) in
+  let s := add_log (touch E s (length (concat ps))) (EvWrite WStdout (concat ps)) in
   match e_mode E with
   | Buf cap =>
       match write_pieces_buf cap (st_out s) (st_sink s) ps with (w, k, ok) => (set_out s w k, ok) end
@@ -295,6 +304,8 @@ Definition child_out (E : env) (s : state) (cgfail : bool) (data : bytes) : stat
           match sink_write (st_sink s) data with (k, _, ok) => (set_out s (st_out s) k, ok) end
       | Buf cap =>
           if cgfail then (set_unmod s, false) else
+          (* another print | cmd child is alive: its goroutine may flush a full buffer at any moment *)
+          let s := if any_cmd (st_outs s) && buf_may_fill E s (length data) then set_unmod s else s in
           match bw_read_from cap (st_out s) (st_sink s) data with (w, k, ok) => (set_out s w k, ok) end
       end
   end.
@@ -510,6 +521,19 @@ Definition scan_stream (s : state) (n : name) (i : istream) : state :=
       end
   end.
 
+(* close(cmd) of a command that exits 0 returns -1 instead of 0 iff the
+   goroutine copying its stdout met a write error.  That goroutine checks the
+   writer's error when it starts running and flushes a full buffer when the
+   child's stdout reaches EOF -- two moments anywhere between Start and Wait.
+   If the writer was healthy when the child started and has failed by the time
+   close returns, which of the two goroutines met the failure is a matter of
+   timing: st_unmod. *)
+Definition close_timing (E : env) (n : name) (o : ostream) (s_after : state) : bool :=
+  match os_kind o, c_exit (e_spec E n) with
+  | KCmd, Exited e => (e =? 0) && negb (os_cgfail o) && bw_err (st_out s_after)
+  | _, _ => false
+  end.
+
 Definition step (E : env) (s : state) (o : op) : state * outcome :=
   match o with
   | Print d ps =>
@@ -543,8 +567,10 @@ Definition step (E : env) (s : state) (o : op) : state * outcome :=
           | Some os =>
               match close_ostream E (set_outs s (aremove n (st_outs s))) n os with
               | (s1, code, err) =>
+                  let tm := close_timing E n os s1 in
                   let s1 := add_log s1 (EvClose n false code) in
                   let s1 := if err then print_errorf E s1 else s1 in
+                  let s1 := if tm then set_unmod s1 else s1 in
                   (add_obs s1 (ORet code), Running)
               end
           | None => (add_obs s (ORet (-1)), Running)
